@@ -170,10 +170,8 @@ func (c *connection) stop() {
 		close(c.stopChan)
 		_ = c.conn.Close()
 		clear(c.handles)
-		close(c.msgChan)
-		close(c.activeMsgChan)
-		close(c.activeMsgCompleteChan)
-		close(c.reissuePackChan)
+		// 其他协程可能还在往这些channel发送数据 关闭会导致send on closed channel
+		// 通过stopChan通知退出 channel由GC回收
 	})
 }
 
@@ -251,14 +249,12 @@ func (c *connection) onActiveEvent(activeMsg *ActiveMessage, record map[uint16]*
 		}
 		go func(overtimeMsg *Message) {
 			time.Sleep(duration)
-			select {
-			case <-c.stopChan:
-				return
-			default:
-			}
 			overtimeMsg.ExtensionFields.Err = errors.Join(ErrWriteDataOverTime,
 				fmt.Errorf("overtime is [%.2f]second", duration.Seconds()))
-			c.activeMsgCompleteChan <- overtimeMsg
+			select {
+			case <-c.stopChan:
+			case c.activeMsgCompleteChan <- overtimeMsg:
+			}
 		}(replyMsg)
 	}
 }
